@@ -38,3 +38,12 @@ flow_contract(GR, "run input rails", version="2.x", prop="C02", globals=[FLAG], 
 for _f in ("_user_said", "_user_saying", "_user_said_something_unexpected"):
     flow_contract(GR, _f, version="2.x", prop="C02", globals=[FLAG, "user_message", "last_user_message"], ensures=[FLAG_SAME],
                   assigns=["user_message", "last_user_message"])
+
+# the shipped self-check output rail (library/self_check/output_check/flows.co): it finishes - which is what lets `output rails` finish and the
+# bot message out - ONLY when the check allowed the output; on a rejected output every path ends in `abort` (rails exceptions on or off)
+SCO = "nemoguardrails/library/self_check/output_check/flows.co"
+flow_contract(
+    SCO, "self check output", version="2.x", prop="C02", globals=[],
+    ensures_finished=["truthy(allowed)"],
+    assigns=[],
+)
